@@ -28,6 +28,7 @@ import AstGrepVerif.Lemmas.CheckVar
 import AstGrepVerif.Model.Rule
 import AstGrepVerif.Lemmas.RuleFuel
 import AstGrepVerif.Lemmas.TreeClosed
+import AstGrepVerif.Lemmas.AnB
 
 namespace AGV.C11
 
@@ -232,134 +233,14 @@ theorem ofRule_cycle_accepted_prefix_example :
 
 /-! ## positions accepted by the repaired `parse_an_b` fit `i32` -/
 
-/-- the invariant of the `parse_an_b` loop under checked arithmetic -/
-def AnbOK (st : AnBState) : Prop :=
-  0 ≤ st.num ∧ st.num ≤ 2147483647 ∧ -2147483647 ≤ st.stepSize ∧ st.stepSize ≤ 2147483647 ∧
-    (st.sign = 1 ∨ st.sign = -1)
-
-theorem digitVal_bounds (c : Char) (h : isDigitC c = true) : 0 ≤ digitVal c ∧ digitVal c ≤ 9 := by
-  unfold isDigitC at h
-  unfold digitVal
-  simp only [Bool.and_eq_true, decide_eq_true_eq] at h
-  have h1 : ('0'.toNat : Nat) = 48 := by decide
-  have h2 : ('9'.toNat : Nat) = 57 := by decide
-  rw [h1] at h ⊢
-  rw [h2] at h
-  omega
-
-theorem signOf_cases (c : Char) : signOf c = 1 ∨ signOf c = -1 := by
-  unfold signOf; split <;> simp
-
-theorem anbStep_ok (st st' : AnBState) (c : Char) (h : AnbOK st) (hs : anbStep st c = .ok st') : AnbOK st' := by
-  obtain ⟨h1, h2, h3, h4, h5⟩ := h
-  unfold anbStep at hs
-  unfold AnbOK
-  split at hs
-  · cases hs; exact ⟨h1, h2, h3, h4, h5⟩
-  · split at hs
-    · -- initial
-      split at hs
-      · cases hs; exact ⟨h1, h2, h3, h4, signOf_cases c⟩
-      · split at hs
-        · rename_i hd
-          cases hs
-          have := digitVal_bounds c hd
-          exact ⟨this.1, by simp only; omega, h3, h4, h5⟩
-        · split at hs
-          · cases hs
-            refine ⟨h1, h2, ?_, ?_, h5⟩ <;> rcases h5 with h5 | h5 <;> simp only [h5] <;> omega
-          · cases hs
-    · -- sign
-      split at hs
-      · cases hs
-      · split at hs
-        · rename_i hd
-          cases hs
-          have := digitVal_bounds c hd
-          exact ⟨this.1, by simp only; omega, h3, h4, h5⟩
-        · split at hs
-          · split at hs
-            · cases hs
-            · cases hs
-              refine ⟨h1, h2, ?_, ?_, h5⟩ <;> rcases h5 with h5 | h5 <;> simp only [h5] <;> omega
-          · cases hs
-    · -- num
-      split at hs
-      · cases hs
-      · split at hs
-        · rename_i hd
-          split at hs
-          · cases hs
-          · rename_i hov
-            cases hs
-            have hb := digitVal_bounds c hd
-            simp only [inI32, i32Min, i32Max] at hov
-            refine ⟨by simp only; omega, ?_, h3, h4, h5⟩
-            simp only
-            by_cases hle : st.num * 10 + digitVal c ≤ 2147483647
-            · exact hle
-            · exfalso; apply hov; simp [hle]
-        · split at hs
-          · split at hs
-            · cases hs
-            · cases hs
-              refine ⟨by simp, by simp, ?_, ?_, h5⟩ <;> rcases h5 with h5 | h5 <;> simp only [h5] <;> omega
-          · cases hs
-    · -- n
-      split at hs
-      · cases hs; exact ⟨by simp, by simp, h3, h4, signOf_cases c⟩
-      · split at hs
-        · cases hs
-        · split at hs <;> cases hs
-
-theorem anbLoop_ok (cs : List Char) : ∀ (st st' : AnBState), AnbOK st → anbLoop st cs = .ok st' → AnbOK st' := by
-  induction cs with
-  | nil =>
-    intro st st' h hs
-    unfold anbLoop at hs
-    injection hs with hs
-    rw [← hs]; exact h
-  | cons c cs ih =>
-    intro st st' h hs
-    unfold anbLoop at hs
-    cases hc : anbStep st c with
-    | error e => rw [hc] at hs; cases hs
-    | ok st1 =>
-      rw [hc] at hs
-      exact ih st1 st' (anbStep_ok st st1 c h hc) hs
-
 /-- **FIX_C11_3.** Whatever the repaired `parse_an_b` accepts has both coefficients in the `i32`
 range — the digits that would overflow are reported as `InvalidSyntax` (`parseAnBChecked`), never
 wrapped; `isMatched` on such operands is the mathematical function (C20 `isMatched_no_overflow`
-covers the pinned `i32` computation for |A|,|B| < 2^30, the repaired code computes in `i64`). -/
+covers the pinned `i32` computation for |A|,|B| < 2^30, the repaired code computes in `i64`:
+C20 `isMatchedI64_exact`).  The proof lives in `Lemmas/AnB.lean` (`parseAnBChecked_in_i32`). -/
 theorem parseAnB_in_i32 (input : List Char) (a b : Int) (h : parseAnBChecked input = .ok (a, b)) :
-    inI32 a = true ∧ inI32 b = true := by
-  unfold parseAnBChecked at h
-  have hp : parseAnB input = .ok (a, b) := by
-    cases hq : parseAnB input with
-    | ok v => rw [hq] at h; simpa using h
-    | error e => rw [hq] at h; cases e <;> simp at h
-  unfold parseAnB at hp
-  cases hl : anbLoop {} input with
-  | error e => rw [hl] at hp; cases hp
-  | ok st =>
-    rw [hl] at hp
-    simp only at hp
-    have hok : AnbOK st := anbLoop_ok input {} st ⟨by decide, by decide, by decide, by decide, Or.inl rfl⟩ hl
-    obtain ⟨h1, h2, h3, h4, h5⟩ := hok
-    have hres : a = st.stepSize ∧ b = st.num * st.sign := by
-      split at hp
-      · cases hp
-      · cases hp
-      · simp only [Except.ok.injEq, Prod.mk.injEq] at hp
-        exact ⟨hp.1.symm, hp.2.symm⟩
-    obtain ⟨ha, hb⟩ := hres
-    subst ha; subst hb
-    unfold inI32 i32Min i32Max
-    constructor
-    · simp only [Bool.and_eq_true, decide_eq_true_eq]; omega
-    · simp only [Bool.and_eq_true, decide_eq_true_eq]
-      rcases h5 with h5 | h5 <;> rw [h5] <;> omega
+    inI32 a = true ∧ inI32 b = true :=
+  parseAnBChecked_in_i32 input a b h
 
 /-- non-vacuity: `2147483647n-2147483647` is accepted, `99999999999` and `2147483648n` are not -/
 example : (match parseAnBChecked ['2','1','4','7','4','8','3','6','4','7','n','-','2','1','4','7','4','8','3','6','4','7'] with
